@@ -597,7 +597,7 @@ def c15_extra(tier, seed, ctx):
     for sidx in range(sessions):
         lines = [junk_line(rng) for _ in range(rng.randrange(3, 25))]
         # the lines that used to kill the engine are always in the mix
-        lines += ["position startpos moves e2e4 x" + "é" * 30, "xx" + "€é" * 20 + " isready"]
+        lines += ["position startpos moves e2e4 x" + "é" * 30, "xx" + "€é" * 20 + " isready", " ", "\t", "  \t ", ""]
         lines += rng.sample(["go wtime", "setoption name value", "setoption value x name y", "go depth", "go nodes -3", "position", "position startpos moves e2e5",
                              "setoption", "go movetime 99999999999999999999999999999999999999999", "position startpos moves"], 4)
         rng.shuffle(lines)
